@@ -669,6 +669,13 @@ static void exec_asm(Run &R, TaskRt &T, int ti, int oi, const Op &op) {
   k.buf = cv.p;
   k.buf_cap = cv.cap;
   k.fault_fired = T.ctx.fired_total > 0;
+  // A refused read(2) only matters if the data was needed: stdio probes for end-of-file and reads ahead, and a
+  // loader that already holds the whole file may ignore such a failure.  With read faults only, failure is
+  // accepted, and success is accepted if everything else is as if nothing had been refused.
+  if (k.fault_fired && T.ctx.fired[K_READ] == T.ctx.fired_total && ret == 0) {
+    k.fault_fired = false;
+    R.st.bump("read_fault_survived");
+  }
   k.count_out = count_out;
   check_assemble(k);
   R.st.asm_checked++;
